@@ -4,6 +4,7 @@ import (
 	"fmt"
 	"go/token"
 	"go/types"
+	"golang.org/x/tools/go/ssa"
 	"sort"
 	"strings"
 
@@ -90,6 +91,23 @@ func C10(c *core.Ctx) {
 	}
 	checkEncDec(c, "R0", tabs) // only the 32 IUPAC symbols (and no other byte, e.g. U) are sequence symbols
 	checkWorkersStateless(c, "R8", tabs, "pkg/updown")
+	// one row per sequence also when a row could not be written: the failure of any row's write is reported (the path rule
+	// of C19, on the list writer only)
+	{
+		p := facts(c)
+		var mine []sink
+		reach := map[*ssa.Function]bool{}
+		if wf := c.SSAFunc("pkg/updown", "writeOutput"); wf != nil {
+			transitiveCallees(wf, reach) // the writer and the helpers it writes through
+		}
+		for _, sk := range p.writeSinks() {
+			if tf := topFunc(sk.fn); tf != nil && (reach[tf] || reach[sk.fn]) {
+				mine = append(mine, sk)
+			}
+		}
+		c.Floor("R12/list-writer-writes", checkErrorExaminedBeforeNextWrite(c, p, mine), 1)
+	}
+	checkWorkerWidthOf(c, tabs, "R11", "pkg/updown", "getLines")                            // a row is a lossless summary only of a sequence as wide as the reference: any other is refused
 	checkReaders(c, tabs, "R10/", true, "ReadEncodeAlignment", "ReadEncodeAlignmentToList") // the sequences summarised are the records of the files, however their lines are wrapped
 	fn := c.LookupFunc("pkg/updown", "getLines")
 	if fn == nil {
